@@ -52,8 +52,11 @@ CONFIGS = ["json", "json.batched", "msgpack", "msgpack.batched", "cbor", "cbor.b
 SER_MODES = ["json", "msgpack", "cbor", "ubjson"]
 URI_ALPHABET = ["a", "0", "_", ".", "#", " ", "\n", "A", "é", "-"]
 
+# an integer beyond CPython's int <-> str conversion limit (a CBOR bignum carries it)
+BIGNUM = 10 ** 5000
+
 TYPED = [
-    None, True, False, -1, 0, 1, 2 ** 53, 2 ** 53 + 1, 0.0, 1.0, 1.5, -1.5,
+    None, True, False, -1, 0, 1, 2 ** 53, 2 ** 53 + 1, BIGNUM, -BIGNUM, 0.0, 1.0, 1.5, -1.5,
     "", "a", "a.b", "a..b", ".a", "a.", "a b", "a#b", "a\n", "é", "A", "exact", "kill",
     b"", b"a", [], [1], ["a"], [None], [[]], [{"session": 1}],
     {}, {"a": 1}, {1: "a"}, {"a": {"b": [1]}}, {None: 1}, {"session": 1, "authid": "a",
@@ -61,7 +64,9 @@ TYPED = [
     [{"session": -1, "authid": "a", "authrole": "r"}],
 ]
 REDUCED = [None, True, -1, 2 ** 53 + 1, 1.5, "a b", "a", b"a", [1], {1: "a"}]
-EXTRA_KEYS = [("zz_unknown", 1), ("x_custom", 1), (1, 1), (None, 1), (b"k", 1), ("", 1)]
+EXTRA_KEYS = [("zz_unknown", 1), ("x_custom", 1), (1, 1), (None, 1), (b"k", 1), ("", 1),
+              # keys that name parameters of the implementation's own constructors
+              ("self", True), ("kwargs", True)]
 
 
 def main(ctx):
@@ -262,6 +267,11 @@ def _exotic_values():
         "json": [float("nan"), float("inf"), float("-inf"), 10 ** 400, 1e-320,
                  "\x00not base64!", "\x00", "\x00YQ="],
     }
+
+
+def R(v):
+    from ref import wamp_grammar as G
+    return G.safe_repr(v)
 
 
 def _path_str(path):
@@ -740,15 +750,15 @@ def job(a):
         if a["lo"] >= 0:
             codes = list(range(a["lo"], a["hi"]))
         else:
-            codes = [337, 256, 336, 338, 1024, -1, -337, 2 ** 31, 2 ** 53, 2 ** 64, True, False,
+            codes = [337, 256, 336, 338, 1024, -1, -337, 2 ** 31, 2 ** 53, 2 ** 64, BIGNUM, True, False,
                      None, 1.0, 2.0, 48.0, "1", "HELLO", b"\x01", [1], {}, [], {"a": 1}]
         for c in codes:
             for b in bodies:
-                env.structure([c] + _copy(b), "type", None, "type code %r with %d elements" % (
-                    c, 1 + len(b)), modes=("envelope",) + tuple(SER_MODES))
+                env.structure([c] + _copy(b), "type", None, "type code %s with %d elements" % (
+                    R(c), 1 + len(b)), modes=("envelope",) + tuple(SER_MODES))
         for st in (None, True, 1, "a", b"", {}, {"a": 1}, [], [[]], [[1, "a", {}]], 1.5,
                    [None], [{}], "[1]"):
-            env.structure(st, "envelope", None, "envelope %r" % (st,),
+            env.structure(st, "envelope", None, "envelope %s" % (R(st),),
                           modes=("envelope",) + tuple(SER_MODES))
         samples.append({"kind": "code", "codes": "%s..%s" % (a["lo"], a["hi"]),
                         "bodies": len(bodies)})
@@ -838,7 +848,7 @@ def _validators(env, a):
             r, outcome = e, "pe"
         except Exception as e:      # noqa
             env.report("foreign-exception", name, detail_of, type(e).__name__,
-                       "%s(%r, %r) raised %s: %s" % (name, value, kwargs, type(e).__name__, e),
+                       "%s(%s, %r) raised %s: %s" % (name, R(value), kwargs, type(e).__name__, e),
                        arg)
             return
         env.count("outcome:accepted" if outcome == "ok" else "outcome:protocol-error")
@@ -846,7 +856,7 @@ def _validators(env, a):
         env.count("verdict:accept" if expect_ok else "verdict:reject")
         if expect_ok and outcome != "ok":
             env.report("rejected-valid", name, detail_of, "-",
-                       "%s(%r, %r) rejected a valid value: %s" % (name, value, kwargs, r), arg)
+                       "%s(%s, %r) rejected a valid value: %s" % (name, R(value), kwargs, r), arg)
         elif not expect_ok and outcome == "ok":
             k = "invalid"
             if isinstance(value, str) and value.endswith("\n"):
@@ -854,10 +864,10 @@ def _validators(env, a):
             elif isinstance(value, str) and any(ord(c) > 127 and c.isdigit() for c in value):
                 k = "non-ascii-digit"
             env.report("accepted-invalid", name, detail_of, k,
-                       "%s(%r, %r) accepted an invalid value" % (name, value, kwargs), arg)
+                       "%s(%s, %r) accepted an invalid value" % (name, R(value), kwargs), arg)
         elif expect_ok and not G.deep_eq(r, expect_value):
             env.report("remarshal-differs", name, detail_of, "-",
-                       "%s(%r) returned %r" % (name, value, r), arg)
+                       "%s(%s) returned %s" % (name, R(value), R(r)), arg)
 
     if mode[0] == "uri":
         _, name, strict, aec, ale = mode
@@ -865,29 +875,29 @@ def _validators(env, a):
         for s in list(strings(a["L"])) + EXTRA_STRINGS:
             ok = G.uri_ok(s, strict, aec, ale)
             run(M.check_or_raise_uri, (s,), kw, ok, s, "check_or_raise_uri", name,
-                "%s %r" % (name, s), s)
+                "%s %s" % (name, R(s)), s)
         for v in TYPED:
             for allow_none in (False, True):
                 k2 = dict(kw, allow_none=allow_none)
                 ok = G.uri_ok(v, strict, aec, ale, allow_none)
                 run(M.check_or_raise_uri, (v,), k2, ok, v, "check_or_raise_uri", name,
-                    "%s %r allow_none=%s" % (name, v, allow_none), v)
+                    "%s %s allow_none=%s" % (name, R(v), allow_none), v)
     elif mode[0] == "realm":
         _, name, allow_eth = mode
         for s in list(strings(a["L"])) + EXTRA_STRINGS + TYPED:
             ok = G.realm_name_ok(s, allow_eth)
             run(M.check_or_raise_realm_name, (s,), {"allow_eth": allow_eth}, ok, s,
-                "check_or_raise_realm_name", name, "%s %r" % (name, s), s)
+                "check_or_raise_realm_name", name, "%s %s" % (name, R(s)), s)
     else:
-        ids = TYPED + [2 ** 53 - 1, 2 ** 31, 2 ** 63, 2 ** 64, -2 ** 53, 10 ** 30]
+        ids = TYPED + [2 ** 53 - 1, 2 ** 31, 2 ** 63, 2 ** 64, -2 ** 53, 10 ** 30, -BIGNUM]
         for v in ids:
             ok = G.chk_id(v) == G.OK
             run(M.check_or_raise_id, (v,), {}, ok, v, "check_or_raise_id", "id",
-                "id %r" % (v,), v)
+                "id %s" % (R(v),), v)
         for v in TYPED + [{"a": {1: 2}}, {"\x00": 1}, {b"a": 1, "b": 2}]:
             ok = G.chk_dict_strkeys(v) == G.OK
             run(M.check_or_raise_extra, (v,), {}, ok, v, "check_or_raise_extra", "extra",
-                "extra %r" % (v,), v)
+                "extra %s" % (R(v),), v)
 
 
 def replay(a):
